@@ -141,6 +141,13 @@ CHECKS = {
             "fatal leaves no code, successful native code is in an executable region and runs, a non-fatal failure runs by emulation.",
             "sanitizer visibility of intra-object overwrites is partial; non-native targets are compiled, not executed",
             "DESIGN.md 4/C05", True),
+    "C12": ("xasm", "exploration",
+            "bounded exhaustive enumeration of programs x x86 flag vectors; each listing assembled with GNU as and compared instruction for instruction (objdump) with the emitted code bytes",
+            "Every program of levels L1, L4, L5 (thorough: + L2, L3) compiled for sse, avx, mmx under every vector of {64,32-bit} x frame pointer x "
+            "{long, short jumps} (thorough: + every feature-bit subset): the listing must assemble, and its disassembly must equal the disassembly of "
+            "OrcCode bytes - mnemonics, registers, memory operands, immediates; branch targets as instruction indices.",
+            "GNU as/objdump 2.40 are the reference; NEON/MIPS not compared (no cross assembler)",
+            "DESIGN.md 4/C12", True),
 }
 
 NOT_YET = {}
@@ -181,6 +188,8 @@ def main():
             "add_only": True,
         },
         "engines": [
+            {"name": "xasm", "path": "engines/xasm.c", "serves_properties": ["C11", "C12"],
+             "kind_free_text": "program x flag-vector enumerator dumping listing + code bytes (C12) or distinct instruction forms per flag vector (C11); lib/vasm.py drives GNU as/objdump"},
             {"name": "xcomp", "path": "engines/xcomp.c", "serves_properties": ["C05"],
              "kind_free_text": "operand-kind / limit / flag space enumerator compiling for every registered target (ASan+bounds, supervised worker, watchdog)"},
             {"name": "xtext", "path": "engines/xtext.c", "serves_properties": ["C15"],
